@@ -7,6 +7,7 @@ import (
 	"fmt"
 	"strings"
 	"testing"
+	"time"
 
 	"pgregory.net/rapid"
 	"verif.local/vfkit"
@@ -219,6 +220,87 @@ func TestVF_C23_SQLProxyACL(t *testing.T) {
 		if both {
 			if st.NonTrivial(fmt.Sprint(acl.Allow), fmt.Sprint(acl.Deny)) {
 				st.Sample(map[string]any{"acl": acl, "topic_denied_although_allowed": bothTopic, "added": map[string]string{"kind": kind, "pattern": p}})
+			}
+		}
+	})
+}
+
+// ---- decision cache: one client connection, several statements ----
+//
+// The proxy keeps a per-connection decision cache (cacheKey -> decision). Whatever is
+// cached, the decision replayed for a statement must be the ACL's decision for the topic
+// THAT statement names. The connection's procedure (handleConn) is mirrored with the real
+// cacheKey / queryCache / authorizeQuery; the expected decision comes from the independent
+// reference above. Refusing with "proxy cannot authorize query" is always acceptable.
+
+func c23sConnDecide(cache *queryCache, acl ACL, query string) (allowed bool, reason string, hit bool) {
+	key := cacheKey(query)
+	decision, hit := cache.get(key)
+	if !hit {
+		ok, why, topics, show := authorizeQuery(acl, query)
+		decision = cacheDecision{created: time.Now(), allowed: ok, reason: why, topics: topics, showTopics: show}
+		cache.set(key, decision)
+	}
+	return decision.allowed, decision.reason, hit
+}
+
+func TestVF_C23_SQLProxyCache(t *testing.T) {
+	st := vfkit.NewStats("C23", "sqlcache")
+	defer st.Flush()
+	topics := []string{"tenant-1", "tenant-2", "tenant-10", "events.2023", "events.2024", "orders", "orders_2", "orders-eu"}
+	pat := rapid.OneOf(
+		rapid.SampledFrom(topics),
+		rapid.SampledFrom([]string{"tenant-*", "events.*", "orders*", "*", "tenant-1*", "events.202?"}),
+	)
+	rapid.Check(t, func(t *rapid.T) {
+		st.Eval()
+		acl := ACL{Allow: rapid.SliceOfN(pat, 0, 3).Draw(t, "allow"), Deny: rapid.SliceOfN(pat, 0, 2).Draw(t, "deny")}
+		cache := newQueryCache(time.Hour, rapid.IntRange(1, 8).Draw(t, "cacheEntries"))
+		if rapid.IntRange(0, 5).Draw(t, "cacheOff") == 0 {
+			cache = nil
+		}
+		n := rapid.IntRange(2, 8).Draw(t, "n")
+		base := rapid.SampledFrom(topics).Draw(t, "baseTopic") // statements cluster around sibling names
+		var trace []string
+		flips, hits := 0, 0
+		last := -1
+		for i := 0; i < n; i++ {
+			topic := base
+			if rapid.Bool().Draw(t, "otherTopic") {
+				topic = rapid.SampledFrom(topics).Draw(t, "topic")
+			}
+			num := rapid.SampledFrom([]int{1, 5, 10, 2023}).Draw(t, "n")
+			q := rapid.SampledFrom([]string{"SELECT * FROM %s LIMIT %d;", "select * from %s tail %d", "SELECT  *  FROM %s   LIMIT %d", "select * from %s limit %d;"}).Draw(t, "shape")
+			query := fmt.Sprintf(q, topic, num)
+			got, reason, hit := c23sConnDecide(cache, acl, query)
+			if hit {
+				hits++
+			}
+			canTrue, canFalse, _, _ := c23sReference(acl, topic)
+			trace = append(trace, fmt.Sprintf("%s=>%v", query, got))
+			if reason == "proxy cannot authorize query" {
+				st.Class("statement-not-parsed(refused)")
+				continue
+			}
+			if (got && !canTrue) || (!got && !canFalse) {
+				t.Fatalf("statement %d %q on one connection decided allowed=%v (cache hit=%v, reason %q) but the ACL %s decides topic %q the other way\ntrace %v", i, query, got, hit, reason, c23sJSON(acl), topic, trace)
+			}
+			d := 0
+			if got {
+				d = 1
+			}
+			if last >= 0 && last != d {
+				flips++
+			}
+			last = d
+		}
+		if hits > 0 {
+			st.Class("sequence-with-cache-hits")
+		}
+		if flips > 0 {
+			st.Class("decision-changes-between-statements")
+			if st.NonTrivial(fmt.Sprint(acl.Allow), fmt.Sprint(acl.Deny), fmt.Sprint(trace)) {
+				st.Sample(map[string]any{"acl": acl, "statements": trace})
 			}
 		}
 	})
